@@ -123,35 +123,60 @@ fn content_distance(seed: u64, shift: f32, inf: (u8, bool, f64), a: &BTreeSet<u3
     scaled(((h >> 40) as f32 + 1.0) / 16_777_216.0 - shift, inf.2)
 }
 
-/// Drains a double-ended iterator with `next` / `next_back` in the order given by the bits of `pattern`
-/// and returns the elements in front-to-back order.
-fn walk_both_ends<T, I: DoubleEndedIterator<Item = T> + ExactSizeIterator>(mut it: I, pattern: u64) -> Result<Vec<T>, String> {
-    let total = it.len();
-    let (mut front, mut back) = (Vec::new(), Vec::new());
+/// Drains a double-ended iterator with `next`, `next_back`, `nth(k)` and `nth_back(k)` in an order given by the bits
+/// of `pattern` (called on the iterator itself, not through an adaptor) and compares every element with the
+/// reference sequence `want` (the front-to-back reading).
+fn walk_both_ends<I, T, C>(mut it: I, conv: C, want: &[T], pattern: u64) -> Result<(), String>
+where
+    I: DoubleEndedIterator + ExactSizeIterator,
+    T: PartialEq + std::fmt::Debug,
+    C: Fn(I::Item) -> T,
+{
+    let (mut lo, mut hi) = (0usize, want.len());
+    if it.len() != hi {
+        return Err(format!("len() = {} for {hi} merges", it.len()));
+    }
     let mut k = 0u32;
     loop {
-        let taken = front.len() + back.len();
-        if taken > total {
-            return Err(format!("yields more than the {total} elements len() announced"));
-        }
-        if it.len() != total - taken {
-            return Err(format!("len() = {} with {} of {total} elements left", it.len(), total - taken));
-        }
-        let from_back = (pattern >> (k % 64)) & 1 == 1;
+        let bits = (pattern.rotate_right(k * 5)) & 0x1f;
         k += 1;
-        match if from_back { it.next_back() } else { it.next() } {
-            Some(v) if from_back => back.push(v),
-            Some(v) => front.push(v),
-            None if taken == total => break,
-            None => return Err(format!("ends after {taken} of {total} elements")),
+        let from_back = bits & 1 == 1;
+        // one call in four skips 1-3 elements
+        let skip = if bits & 6 == 6 { 1 + (bits >> 3) as usize % 3 } else { 0 };
+        let (call, got) = match (from_back, skip) {
+            (false, 0) => ("next()".to_string(), it.next()),
+            (true, 0) => ("next_back()".to_string(), it.next_back()),
+            (false, n) => (format!("nth({n})"), it.nth(n)),
+            (true, n) => (format!("nth_back({n})"), it.nth_back(n)),
+        };
+        let expect = if lo + skip < hi {
+            let i = if from_back { hi - 1 - skip } else { lo + skip };
+            if from_back {
+                hi -= skip + 1;
+            } else {
+                lo += skip + 1;
+            }
+            Some(i)
+        } else {
+            lo = hi;
+            None
+        };
+        match (got.map(&conv), expect) {
+            (None, None) => {}
+            (Some(g), Some(i)) if g == want[i] => {}
+            (g, e) => return Err(format!("{call} yields {g:?}, expected {:?} (merge {e:?} of the front-to-back reading)", e.map(|i| &want[i]))),
+        }
+        if it.len() != hi - lo {
+            return Err(format!("len() = {} after {call} with {} merges left", it.len(), hi - lo));
+        }
+        if lo == hi {
+            break;
         }
     }
     if it.next().is_some() || it.next_back().is_some() {
         return Err("yields elements after it ended".into());
     }
-    back.reverse();
-    front.extend(back);
-    Ok(front)
+    Ok(())
 }
 
 pub fn check(c: &Case, stats: &mut Stats) -> CheckResult {
@@ -263,10 +288,15 @@ pub fn check(c: &Case, stats: &mut Stats) -> CheckResult {
             // the dendrogram read from the back and from both ends at once (next / next_back in a generated
             // order), through the borrowing and the consuming iterator
             let tup = |c: &hpo::stats::cluster::Cluster| (c.lhs(), c.rhs(), c.distance(), c.len());
+            // (bit patterns of the distances, so that elements compare exactly)
+            let bits = |t: (usize, usize, f32, usize)| (t.0, t.1, t.2.to_bits(), t.3);
+            let want: Vec<(usize, usize, u32, usize)> = a.iter().copied().map(bits).collect();
+            let walked = |r: Result<(), String>| r.map(|()| a.clone());
             let mut ends: Vec<(&'static str, Result<Vec<(usize, usize, f32, usize)>, String>)> = vec![
                 ("cluster().rev()", Ok(l.cluster().rev().map(tup).collect::<Vec<_>>().into_iter().rev().collect())),
-                ("cluster() from both ends", walk_both_ends(l.cluster(), c.seed).map(|v| v.into_iter().map(tup).collect())),
-                ("iter() from both ends", walk_both_ends(l.iter(), !c.seed).map(|v| v.into_iter().map(tup).collect())),
+                ("cluster() from both ends", walked(walk_both_ends(l.cluster(), |c| bits(tup(c)), &want, c.seed))),
+                ("iter() from both ends", walked(walk_both_ends(l.iter(), |c| bits(tup(c)), &want, !c.seed))),
+                ("&linkage from both ends", walked(walk_both_ends((&l).into_iter(), |c| bits(tup(c)), &want, c.seed.rotate_left(29)))),
             ];
             let d: Vec<(usize, usize, f32, usize)> = match c.seed % 3 {
                 0 => l.into_cluster().map(|c| tup(&c)).collect(),
@@ -275,7 +305,7 @@ pub fn check(c: &Case, stats: &mut Stats) -> CheckResult {
                     a.clone()
                 }
                 _ => {
-                    ends.push(("into_cluster() from both ends", walk_both_ends(l.into_cluster(), c.seed.rotate_left(17)).map(|v| v.iter().map(tup).collect())));
+                    ends.push(("into_cluster() from both ends", walked(walk_both_ends(l.into_cluster(), |c| bits(tup(&c)), &want, c.seed.rotate_left(17)))));
                     a.clone()
                 }
             };
@@ -557,7 +587,7 @@ impl Property for C17 {
         "C17"
     }
     fn rule(&self) -> String {
-        "Generated: n in 2..=24 (thorough 40) input sets with pairwise different contents, in one case of four overlapping (mostly singletons, some with 2-3 terms, in one case of eight one input with 33-47 terms, in one case of ten one input is the empty set) over a flat 96-term ontology, handed over as a Vec or as iterators without an exact size hint (filter, chain, map_while); for single/complete/average a generated symmetric table of initial distances (distinct values, or few values so that ties are frequent; shifted so that distances are all positive, mixed-sign, all negative or touch zero; in one case of five some pairs - for n <= 6 sometimes all - are infinitely far apart, +inf or -inf but never both; in one case of three all distances are scaled by 10^e, e in -45..=30, so that they lie far below f32::EPSILON, among the subnormal numbers, or far above 1; one further class scales them so that the largest is 3e38: all finite, but the sum of two distances can exceed f32::MAX); for union a symmetric pseudo-random distance that is a function of the two sets' contents, so merged sets get fresh values. Oracle = validity predicate simulated along the library's own merge choices (ties admit several dendrograms): exactly n-1 merges; each merge joins two live, different clusters (inputs or earlier merges n+k), so every input and intermediate cluster is merged exactly once and one cluster remains; the reported distance equals the pair's current distance bit for bit and no live pair is strictly closer; distances to the new cluster follow the method (min / max / mean of the two parts in f32 / content function of the union); len adds up and is n at the last merge; indicies() is a permutation of 0..n; cluster(), iter(), &linkage and into_cluster() agree, also when read from the back (rev) or from both ends in a generated order of next / next_back calls, with len() equal to the number of merges left at every step; the first callback invocation asks every unordered pair of inputs exactly once (later invocations, which also pair the new set with itself, are not constrained). evaluations = clusterings. Non-trivial = n >= 4 and some merge joins two earlier clusters; distinct by hash of the case.".into()
+        "Generated: n in 2..=24 (thorough 40) input sets with pairwise different contents, in one case of four overlapping (mostly singletons, some with 2-3 terms, in one case of eight one input with 33-47 terms, in one case of ten one input is the empty set) over a flat 96-term ontology, handed over as a Vec or as iterators without an exact size hint (filter, chain, map_while); for single/complete/average a generated symmetric table of initial distances (distinct values, or few values so that ties are frequent; shifted so that distances are all positive, mixed-sign, all negative or touch zero; in one case of five some pairs - for n <= 6 sometimes all - are infinitely far apart, +inf or -inf but never both; in one case of three all distances are scaled by 10^e, e in -45..=30, so that they lie far below f32::EPSILON, among the subnormal numbers, or far above 1; one further class scales them so that the largest is 3e38: all finite, but the sum of two distances can exceed f32::MAX); for union a symmetric pseudo-random distance that is a function of the two sets' contents, so merged sets get fresh values. Oracle = validity predicate simulated along the library's own merge choices (ties admit several dendrograms): exactly n-1 merges; each merge joins two live, different clusters (inputs or earlier merges n+k), so every input and intermediate cluster is merged exactly once and one cluster remains; the reported distance equals the pair's current distance bit for bit and no live pair is strictly closer; distances to the new cluster follow the method (min / max / mean of the two parts in f32 / content function of the union); len adds up and is n at the last merge; indicies() is a permutation of 0..n; cluster(), iter(), &linkage and into_cluster() agree, also when read from the back (rev) or from both ends in a generated order of next / next_back / nth(k) / nth_back(k) calls on the iterator itself, with len() equal to the number of merges left at every step; the first callback invocation asks every unordered pair of inputs exactly once (later invocations, which also pair the new set with itself, are not constrained). evaluations = clusterings. Non-trivial = n >= 4 and some merge joins two earlier clusters; distinct by hash of the case.".into()
     }
     fn assumptions(&self) -> Vec<String> {
         vec![
